@@ -5,13 +5,27 @@
   base (the start reading), the release, and that the fallback always gets the caller's own context.
 -/
 import CircuitProofs.Props.CircuitCommon
-import CircuitProofs.Lemmas.Circuit
+import CircuitProofs.Lemmas.CircuitC
 namespace CM.Props.C07
 open CM CM.SpecCircuit CM.Props
 
 theorem c07_holds {σo σc : Type} (O : OpenerI σo) (C : CloserI σc) (c : Circ σo σc) (op : ExecOp) :
     verdictC07 c.cfg op (execObs O C c op) = none := by
-  sorry
+  cases hd : c.cfg.disabled with
+  | true => simp [verdictC07, hd]
+  | false =>
+    have sp := execute_spec O C c op.ctx op.run op.fb hd
+    unfold execObs
+    dsimp only
+    generalize execute O C c op.ctx op.run op.fb = r at *
+    have hfb := sp.fbSameCtx
+    rcases sp.seen with ⟨h1, h2⟩ | ⟨sc, h1, h2, h3, h4⟩
+    · simp [verdictC07, mkObs, hd, h1, hfb]
+    · obtain ⟨l, hl⟩ := sp.readings sc h1
+      by_cases ht : c.cfg.timeout > 0
+      · simp [verdictC07, mkObs, hd, h1, h2, h3, hl, hfb, derivedSeen, ht]
+        cases op.ctx.deadline <;> rfl
+      · simp [verdictC07, mkObs, hd, h1, h2, h3, hl, hfb, derivedSeen, ht]
 
 /-- explicitly: what the run function is handed -/
 theorem ctx_for_run {σo σc : Type} (O : OpenerI σo) (C : CloserI σc) (c : Circ σo σc) (op : ExecOp) (s : Seen)
@@ -24,12 +38,26 @@ theorem ctx_for_run {σo σc : Type} (O : OpenerI σo) (C : CloserI σc) (c : Ci
       (execute O C c op.ctx op.run op.fb).2.1.released = some true) ∧
     (c.cfg.timeout ≤ 0 → s.sameAsCaller = true ∧ s.deadline = op.ctx.deadline ∧
       (execute O C c op.ctx op.run op.fb).2.1.released = none) := by
-  sorry
+  have sp := execute_spec O C c op.ctx op.run op.fb hen
+  generalize execute O C c op.ctx op.run op.fb = r at *
+  rcases sp.seen with ⟨h1, -⟩ | ⟨sc, -, h2, h3, -⟩
+  · rw [h1] at hs; cases hs
+  · rw [h2] at hs
+    cases hs
+    refine ⟨fun ht => ?_, fun ht => ?_⟩
+    · simp [h3, derivedSeen, ht]
+      cases op.ctx.deadline <;> rfl
+    · have ht' : ¬ c.cfg.timeout > 0 := by omega
+      simp [h3, derivedSeen, ht']
 
 /-- the fallback always receives the caller's original context -/
 theorem fallback_gets_caller_ctx {σo σc : Type} (O : OpenerI σo) (C : CloserI σc) (c : Circ σo σc) (op : ExecOp) :
     (execute O C c op.ctx op.run op.fb).2.1.fbSameCtx = true := by
-  sorry
+  cases hd : c.cfg.disabled with
+  | true =>
+    rw [execute_disabled O C c _ _ _ hd]
+    cases op.run <;> rfl
+  | false => exact (execute_spec O C c op.ctx op.run op.fb hd).fbSameCtx
 
 example : ((execute openerI closerI ({ cfg := { timeout := 100 }, clock := 7, opener := .never, closer := .never } : Circ OState CState)
     { deadline := some 50 } (some {}) none).2.1.runSeen.map (·.deadline)) = some (some 50) := by decide
